@@ -31,6 +31,7 @@ from eaopack import serialization as ser
 from eaopack.portfolio import Portfolio, StructuredAsset, LinkedAsset
 
 from .. import gen, scen, impl, pf, schema_gen
+from . import datecont as DC
 from ..impl import Quiet, problem_json, err_class
 
 FORMS = ['plain', 'aware', 'array', 'index', 'ts', 'date', 'datearr']
@@ -884,6 +885,50 @@ def gen_case(rnd, i=0):
     return case
 
 
+def gen_case_dates(rnd, i=0):
+    """stream `dates`: a portfolio whose interval data, orders and windows hold their dates in containers of every kind
+    (harness.comp.datecont: lists / numpy object arrays of zone-aware Timestamps or datetimes, DatetimeIndex without and
+    with a calendar frequency, datetime64 arrays, dates in another zone than the grid's) on a grid whose zone is mostly not
+    UTC, around a daylight-saving switch or anywhere in the year.  Second (grid, prices) pair: the first part of the
+    horizon, in the same or in another zone."""
+    for attempt in range(8):
+        g = DC.gen_grid(random.Random(rnd.getrandbits(48)))
+        if g is None:
+            continue
+        scn = DC.portfolio(random.Random(rnd.getrandbits(48)), g)
+        DC.apply_containers(scn, random.Random(rnd.getrandbits(48)))
+        with_dates = [j for j, a in enumerate(scn['assets']) if DC.has_containers(a)]
+        if not with_dates:
+            continue
+        r = rnd.random()
+        if r < 0.5:
+            target = {'kind': 'portfolio', 'own_grid': True}
+        elif r < 0.85:
+            target = {'kind': 'asset', 'index': rnd.choice(with_dates)}
+        else:
+            target = {'kind': 'portfolio', 'own_grid': False}
+        case = {'scn': scn, 'form': 'containers', 'target': target, 'solve': (i % 4 == 0), 'stream': 'dates'}
+        _second_grid(case, rnd)
+        if rnd.random() < 0.3:      # the same local times in another zone
+            g2 = {k: v for k, v in case['grid2'].items() if k != '_pts'}
+            g2['tz'] = rnd.choice([z for z in DC.ZONES if z != g['tz']])
+            try:
+                gen.fix_grid(g2)
+                T2 = scen.make_grid(g2).T
+                if T2 >= 1:
+                    case['grid2'] = g2
+                    case['prices2'] = {k: [gen.q8(rnd, -4, 20) for _ in range(T2)] for k in scn['prices']}
+            except Exception:
+                pass
+        try:
+            with Quiet():
+                build_case(case)
+            return case
+        except Exception:
+            continue
+    return gen_case(rnd, i)
+
+
 # ------------------------------------------------------------------ building
 def _patch_df_orders(spec, obj):
     if spec.get('df_orders'):
@@ -920,7 +965,10 @@ def build_case(case):
     tg = make_grid(scn['grid'])
     nodes = make_nodes(scn)
     assets = []
-    for s in (_pre_dec(scn['assets']) if case.get('form') == 'zi' else scn['assets']):
+    specs = _pre_dec(scn['assets']) if case.get('form') == 'zi' else scn['assets']
+    if DC.has_containers(specs):      # date containers of the stream `dates` (harness.comp.datecont)
+        specs = DC.dec_containers(specs)
+    for s in specs:
         if s['type'] == 'LinkedAsset':
             inner = [scen.build_asset(x, nodes) for x in s['inner']]
             args = scen.dec(copy.deepcopy(s['args']))
@@ -1055,6 +1103,14 @@ def run_impl(case):
     for a in scen.all_asset_specs(scn) if cls == 'Portfolio' else scen.all_asset_specs({'assets': [spec]}):
         if a.get('args', {}).get('_no_heat'):
             feats.append('no-heat:%s:%d-node%s' % (a['type'], len(a['nodes']), 's' if len(a['nodes']) > 1 else ''))
+    conts = sorted(DC.container_kinds(scn['assets'] if cls == 'Portfolio' else spec))
+    if conts:
+        facts0['containers'] = conts
+        feats += ['dates:' + x for x in conts]
+        if scn['grid'].get('season'):
+            feats.append('dates-grid:%s:%s' % (scn['grid']['season'], 'UTC' if scn['grid'].get('tz') == 'UTC' else 'zone-with-offset'))
+        if case.get('grid2', {}).get('tz') != scn['grid'].get('tz'):
+            feats.append('dates-grid2:other-zone')
 
     def viol(oracle, detail, **kw):
         f = dict(facts0)
@@ -1524,6 +1580,10 @@ def scenarios(seed, tier):
             case = gen_case_sweep(random.Random(rnd.getrandbits(48)), cls, musts, j + rep)
             if case is not None:
                 yield emit('sweep%d_%d' % (rep, j), case)
+    # date containers of every kind inside interval data / orders / windows, on grids in zones with an offset to UTC
+    rnd = random.Random(seed * 15485863 + 2221)
+    for i in range(200 if tier == 'quick' else 1200):
+        yield emit('dates%d' % i, gen_case_dates(random.Random(rnd.getrandbits(48)), i))
     yield 'coverage', {'coverage': True, 'covered': sorted(covered)}
 
 
